@@ -25,9 +25,11 @@ pub struct GCfg {
     pub tail: bool,
 }
 
-/// (source chain, message id) pairs; 3 and 4 split the same characters
-/// differently between chain and id.
-pub const IDS: [(&str, &str); 6] = [
+/// (source chain, message id) pairs; ("ab","c") / ("a","bc") split the same
+/// characters differently between chain and id; the first two share the id on
+/// different chains.
+pub const IDS: [(&str, &str); 7] = [
+    ("avalanche", "0xaa-0"),
     ("ethereum", "0xaa-0"),
     ("ethereum", "0xaa-1"),
     ("avalanche", "0xbb-7"),
